@@ -21,6 +21,7 @@ import os
 import resource
 import signal
 import struct
+import zlib
 
 from hypothesis import strategies as st
 
@@ -217,7 +218,7 @@ RESEALED = st.lists(PATCH, min_size=1, max_size=2).map(lambda l: l + [('reseal',
 # pointers that take the value of another pointer of the same kind (or of a near-by value), with the descriptor resealed: the
 # recipe for self-referencing structures (a directory entry that leads back to an ancestor, a continuation area that points
 # at itself, a path table entry whose directory is its own parent ...)
-POINTER_KINDS = ['fid-icb-lbn', 'fid-icb-lbn', 'fid-icb-lbn', 'ad-position', 'fsd-root-lbn', 'lvd-fsd-lbn', 'extent', 'extent', 'ce-block', 'cl-location', 'pl-location',
+POINTER_KINDS = ['fid-icb-lbn', 'fid-icb-lbn', 'fid-icb-lbn', 'current_lba', 'backup_lba', 'entries_lba', 'num_entries', 'ad-position', 'fsd-root-lbn', 'lvd-fsd-lbn', 'extent', 'extent', 'ce-block', 'cl-location', 'pl-location',
                  'pt-extent', 'pt-parent', 'eltorito-load-rba', 'eltorito-catalog-pointer', 'anchor-main-location', 'lvd-integrity-location']
 POINTER = st.builds(lambda k, i, r, rnd: [('nfield', k, i, r, rnd), ('reseal',)], st.sampled_from(POINTER_KINDS), st.integers(0, 99999),
                     st.sampled_from(['other', 'other', 'other', 'minus1', 'plus1', 'zero']), st.integers(0, 0xffffffff))
@@ -369,6 +370,20 @@ def apply_patches(base, patches):
             img[t + 4] = 0
             img[t + 4] = sum(img[t:t + 16]) & 0xff
             desc.append(('reseal',))
+        # GPT headers: CRC32 of the header with its CRC field zeroed
+        import zlib
+        for x in touched:
+            h = (x // 512) * 512
+            if h in done or bytes(img[h:h + 8]) != b'EFI PART' or not (h <= x < h + 92):
+                continue
+            done.add(h)
+            hsize = min(struct.unpack_from('<L', img, h + 12)[0], 512)
+            if 16 <= x < 20:
+                continue            # the CRC field itself was the target
+            raw = bytearray(img[h:h + hsize])
+            raw[16:20] = b'\0\0\0\0'
+            struct.pack_into('<L', img, h + 16, zlib.crc32(bytes(raw)) & 0xffffffff)
+            desc.append(('reseal-gpt',))
     return bytes(img), touched, desc
 
 
@@ -412,7 +427,7 @@ def newval(v, rk, rnd, n, fields, fk, img, width):
 def open_one(data):
     """Returns None (ok / documented exception) or (sig, msg)."""
     fp = CountingFile(data)
-    fp.like_os_file = (len(data) + data[min(len(data), 33000) - 1 if data else 0]) % 2 == 1 if data else False
+    fp.like_os_file = bool(zlib.crc32(data) & 1)
     iso = pycdlib.PyCdlib()
     try:
         iso.open_fp(fp)
